@@ -83,6 +83,13 @@ func VfC04_Redirect() {
 			nd.Cover("unreachable-target")
 			return
 		}
+		if nd.Bool("the-table-already-names-the-target-as-owner-of-that-slot") {
+			// e.g. a replica that left its master answers MOVED to the master the table knows: the
+			// table is stale in another respect (the replica list), a refresh is still due
+			sn, _ := btoi64([]byte(slot))
+			u.slots[sn] = &instance{Addr: target}
+			nd.Cover("target-is-table-owner")
+		}
 		u.handleRedirection(req, newError(w+" "+slot+" "+target))
 		other := a
 		if target == a {
